@@ -137,9 +137,26 @@ def run(facts, res):
         par = arg_term(b, s.term, 2, 30)
         stg = arg_term(b, s.term, 3, 6)
         nr = [x for x in walk(rev) if x[0] == "call" and callee_name(x) == "new_resolved"]
-        leaf_vars = {v[1] for x in nr for v in walk(x[2][0]) if v[0] == "var"} if nr else set()
-        par_vars = {v[1] for v in walk(par) if v[0] == "var"}
-        same_leaf = bool(leaf_vars & par_vars) and peel(par)[0] != "agg" or (par[0] == "agg" and par[2] == "Some" and bool(leaf_vars & par_vars))
+        def root_vars(t_):
+            """the named variable(s) a value is a view / copy of (not the variables its definition mentions further down)"""
+            out_, stack_ = set(), [t_]
+            while stack_:
+                y = stack_.pop()
+                y = peel(y, stop_var=True)
+                if y[0] == "var":
+                    out_.add(y[1])
+                    # a plain rebinding (`let leaf = r;`, `let p = r.clone();`) names the same value
+                    inner_ = peel(y[3], stop_var=True)
+                    if inner_[0] == "var":
+                        stack_.append(inner_)
+                elif y[0] == "agg" and y[2] == "Some" and y[3]:
+                    stack_.append(y[3][0])
+                elif y[0] == "phi":
+                    stack_.extend(y[1])
+            return out_
+        leaf_vars = set().union(*[root_vars(x[2][0]) for x in nr]) if nr else set()
+        par_vars = root_vars(par)
+        same_leaf = bool(leaf_vars & par_vars)
         staged = stg[0] == "const" and stg[1] == "bool" and stg[2] is True
         # iteration over the whole leaf set
         whole = False
